@@ -550,11 +550,15 @@ func (b *Block) Clear() {
 
 /*SetBlockState - set the state of the block */
 func (b *Block) SetBlockState(blockState int8) {
+	b.stateStatusMutex.Lock()
+	defer b.stateStatusMutex.Unlock()
 	b.blockState = blockState
 }
 
 /*GetBlockState - get the state of the block */
 func (b *Block) GetBlockState() int8 {
+	b.stateStatusMutex.RLock()
+	defer b.stateStatusMutex.RUnlock()
 	return b.blockState
 }
 
@@ -661,11 +665,15 @@ func (b *Block) IsBlockFinalised() bool {
 
 /*SetVerificationStatus - set the verification status of the block by this node */
 func (b *Block) SetVerificationStatus(status int) {
+	b.stateStatusMutex.Lock()
+	defer b.stateStatusMutex.Unlock()
 	b.verificationStatus = status
 }
 
 /*GetVerificationStatus - get the verification status of the block */
 func (b *Block) GetVerificationStatus() int {
+	b.stateStatusMutex.RLock()
+	defer b.stateStatusMutex.RUnlock()
 	return b.verificationStatus
 }
 
@@ -750,10 +758,11 @@ func (b *Block) SetPrevBlockVerificationTickets(bvt []*VerificationTicket) {
 func (b *Block) Clone() *Block {
 	b.ticketsMutex.RLock()
 	vts := copyVerificationTickets(b.VerificationTickets)
+	body := b.UnverifiedBlockBody.Clone() // copies PrevBlockVerificationTickets
 	b.ticketsMutex.RUnlock()
 
 	clone := &Block{
-		UnverifiedBlockBody: *b.UnverifiedBlockBody.Clone(),
+		UnverifiedBlockBody: *body,
 		VerificationTickets: vts,
 		HashIDField:         b.HashIDField,
 		Signature:           b.Signature,
@@ -761,10 +770,10 @@ func (b *Block) Clone() *Block {
 		RoundRank:           b.RoundRank,
 		PrevBlock:           b.PrevBlock,
 		RunningTxnCount:     b.RunningTxnCount,
-		stateStatus:         b.stateStatus,
-		blockState:          b.blockState,
-		isNotarized:         b.isNotarized,
-		verificationStatus:  b.verificationStatus,
+		stateStatus:         b.GetStateStatus(),
+		blockState:          b.GetBlockState(),
+		isNotarized:         b.IsBlockNotarized(),
+		verificationStatus:  b.GetVerificationStatus(),
 		StateChangesCount:   b.StateChangesCount,
 	}
 	if b.MagicBlock != nil {
